@@ -166,6 +166,48 @@ def run_one(cfg):
     return None
 
 
+def seam():
+    """a walker that lands exactly on the periodic seam (raw proposal -1e-17 wraps to 1.0): the record the kernel returns is still whole,
+    x == T(u) for the u it returns"""
+    from tempest import mcmc
+    from tempest.modes import ModeStatistics
+    T = lambda v: 3.0 * np.asarray(v, dtype=float) - 1.0
+    for kernel, cls in (("rwm", mcmc.RWMRunner), ("tpcn", mcmc.TPCNRunner)):
+        ms = ModeStatistics(np.full((1, 2), 0.5), 0.04 * np.eye(2)[None], np.array([5.0]))
+        for target in (-1e-17, -2.0 ** -54, 1.0):
+            u0 = np.array([[0.25, 0.5]])
+            try:
+                r = cls(u=u0.copy(), x=T(u0), logl=np.zeros(1), blobs=None, assignments=np.zeros(1, dtype=int), beta=1.0, mode_stats=ms,
+                        log_likelihood=lambda x: (np.zeros(len(np.atleast_2d(x))), None), prior_transform=T, progress_bar=None, n_steps=1, n_max=1,
+                        periodic=[0], reflective=None, verbose=False)
+            except TypeError:
+                return None
+            r.sigmas[:] = 0.5
+            L = ms.chol_covariances[0]
+            if kernel == "rwm":
+                z = np.linalg.solve(0.5 * L, np.array([target, 0.5]) - u0[0])
+            else:
+                mu = ms.means[0]
+                z = np.linalg.solve(0.5 * L, np.array([target, 0.5]) - (mu + np.sqrt(0.75) * (u0[0] - mu)))
+            o = (np.random.randn, np.random.gamma, np.random.rand)
+            np.random.randn = lambda *a: (np.broadcast_to(z, a).copy() if len(a) == 2 else z.copy())
+            np.random.gamma = lambda *a, **k: (np.ones(k.get("size") or (a[2] if len(a) > 2 else ())) if (k.get("size") or len(a) > 2) else 1.0)
+            np.random.rand = lambda *a: (np.zeros(a) if a else 0.0)
+            r._check_convergence = lambda acc, r=r: r.iteration >= 1
+            r._adapt_sigma = lambda *a, **k: None
+            try:
+                r.run()
+            except Exception:
+                continue
+            finally:
+                np.random.randn, np.random.gamma, np.random.rand = o
+            u, x = np.asarray(r.u), np.asarray(r.x)
+            if not np.array_equal(T(u), x):
+                return (f"{kernel} kernel, periodic coordinate 0, raw proposal {target!r}: the kernel returns u = {u[0].tolist()} with x = {x[0].tolist()}, but the prior transform of "
+                        f"that u is {T(u)[0].tolist()}: u was rewritten after x was computed")
+    return None
+
+
 def reused_object():
     """one Sampler object that has completed a run is then used for the checkpoints of other chains (load_state, sample, posterior,
     run(resume_state_path)): every record in the flat history, in the current state and in posterior() is still a whole record of
@@ -236,6 +278,13 @@ def reused_object():
 
 def main():
     p = json.load(open(sys.argv[1]))
+    try:
+        r = seam()
+    except Exception as e:
+        r = None
+    if r:
+        print(json.dumps({"reproduced": True, "detail": r, "input": {"case": "periodic-seam"}, "tried": 1}))
+        return
     try:
         r = reused_object()
     except Exception as e:
